@@ -122,6 +122,8 @@ def work(arg):
         sysname = rng.choice(P.CONTINUATION) if rng.random() < 0.7 else None
         rbs = [P.render(prog, lay) for lay in layouts_for(rng, nlay, sysname)]
         cases.append((kind, pseed, prog, ra, rbs, sysname))
+    if cases:
+        res["sample"] = {"canonical_layout": cases[0][3].text[:700], "variant": cases[0][4][0].text[:900]}
     # --- front end: tokens and tree under every layout (hooks)
     texts = []
     for kind, pseed, prog, ra, rbs, sysname in cases:
